@@ -135,8 +135,14 @@ if exe and shim:
     with open('/repo/tests/ch255.bz2', 'rb') as f:
         bomb = f.read()
     fam_c = {'random': rnd, 'compressible': comp, 'zeros': zeros}
+    # valid streams full of spurious block headers (speculative jobs that
+    # fail or are overtaken must give back everything they allocated)
+    import camp_sched as S
+    planted = b''.join(d for _, d, _, tag in S.planted_streams(rng, True)
+                       if tag.startswith('in-coded-data')) * 8
     fam_d = {'random': bz2.compress(rnd, 9), 'compressible':
-             bz2.compress(comp, 9), 'bomb-46MB': bomb}
+             bz2.compress(comp, 9), 'bomb-46MB': bomb,
+             'planted-headers': planted}
     ns = [1, 2, 4]
     mults = [1, 4, 16] if not ck.quick else [1, 4]
     for n in ns:
